@@ -7,6 +7,7 @@ length (valid = block hashes and keys are not repeated inside the active chain; 
 disconnects more blocks than the index holds).
 -/
 import TeosVerif.Lemmas.TxIndex
+import TeosVerif.Gen.Calls
 
 namespace Teos.C19
 open Teos Teos.TxIndex
@@ -233,5 +234,15 @@ active chain (`b1`, at height 99) yet the look-up misses it. -/
 theorem full_statement_fails :
     winLookup 1 ((runC wBoot wOps).drop ((runC wBoot wOps).length - 2)) = some 1 ∧
     (runT (TxIndex.new wBoot 100) wOps).get 1 = none := by decide
+
+/-- **the_tower_boots_its_lookups_from_the_most_recent_blocks** (tie to the source, regenerated on
+every run): `main.rs` hands `Watcher::new` the first six blocks of the list `get_last_n_blocks`
+returns (newest first) and `Responder::new` the whole list; the harness boots the real components
+with exactly the slice the extractor read, and the model's `boot` takes the same blocks
+(`C01.boot_lookups_cover_the_most_recent_blocks`). -/
+theorem the_tower_boots_its_lookups_from_the_most_recent_blocks :
+    Gen.Calls.watcherBoot = [("main", "main", "&last_n_blocks[0..6]")] ∧
+    Gen.Calls.responderBoot = [("main", "main", "&last_n_blocks")] := by
+  decide
 
 end Teos.C19
